@@ -21,21 +21,33 @@ fn value_ranges(mode: u8, inner: &[u8]) -> Option<Vec<(usize, usize)>> {
 fn later_use(mode: u8, data: &[u8], ctx: Ctx, j: usize, k: usize) -> Option<String> {
     let pre: Vec<Prog> = (0..j).map(|_| Prog::Take { opt: true, kind: 0, exp: None, body: Body::Generic }).collect();
     let body: Vec<Prog> = (0..k).map(|_| Prog::Take { opt: false, kind: 0, exp: None, body: Body::Generic }).collect();
-    let mut captured = None;
-    let mut inplace: Vec<i128> = Vec::new();
-    let run = |cons: &mut Constructed<bcder::decode::SliceSource>| -> Result<(), bcder::decode::DecodeError<std::convert::Infallible>> {
-        let mut l = Vec::new();
-        exec(&pre, cons, &mut l)?;
-        let cap = cons.capture(|c| { let mut l2 = Vec::new(); exec_with::<_, CapNo>(&body, c, &mut l2)?; inplace = l2; Ok(()) })?;
-        captured = Some(cap);
-        Ok(())
-    };
-    let r = match ctx {
-        Ctx::Top => Constructed::decode(data.into_source(), mode_of(mode), run),
-        _ => Constructed::decode(data.into_source(), mode_of(mode), |c| c.take_sequence(run)),
-    };
-    // the enclosing decode may fail afterwards (unread values in a definite parent); we only need the capture
-    let _ = r;
+    // the same decode twice: plainly, and with a capture attempt first whose closure reads to the end of the
+    // enclosing value and then fails - a failed capture consumes nothing and changes nothing
+    let mut results: Vec<(Option<bcder::Captured>, Vec<i128>)> = Vec::new();
+    for probe in [false, true] {
+        let mut captured = None;
+        let mut inplace: Vec<i128> = Vec::new();
+        let run = |cons: &mut Constructed<bcder::decode::SliceSource>| -> Result<(), bcder::decode::DecodeError<std::convert::Infallible>> {
+            if probe { let p = cons.capture(|c| { c.skip_all()?; Err(c.content_err("probe")) }); if p.is_ok() { return Err(cons.content_err("probe succeeded")) } }
+            let mut l = Vec::new();
+            exec(&pre, cons, &mut l)?;
+            let cap = cons.capture(|c| { let mut l2 = Vec::new(); exec_with::<_, CapNo>(&body, c, &mut l2)?; inplace = l2; Ok(()) })?;
+            captured = Some(cap);
+            Ok(())
+        };
+        let r = match ctx {
+            Ctx::Top => Constructed::decode(data.into_source(), mode_of(mode), run),
+            _ => Constructed::decode(data.into_source(), mode_of(mode), |c| c.take_sequence(run)),
+        };
+        // the enclosing decode may fail afterwards (unread values in a definite parent); we only need the capture
+        let _ = r;
+        results.push((captured, inplace));
+    }
+    let (captured_probe, inplace_probe) = results.pop().unwrap();
+    let (captured, inplace) = results.pop().unwrap();
+    if captured.as_ref().map(|c| c.as_slice().to_vec()) != captured_probe.as_ref().map(|c| c.as_slice().to_vec()) || inplace != inplace_probe {
+        return Some("a-failed-capture-changes-what-follows".into())
+    }
     let cap = captured?;
     let bytes = cap.as_slice().to_vec();
     // full decode later = decoding in place
